@@ -399,6 +399,25 @@ def run_ismult2(case):
         if fl:
             return [fl]
         ck.check(np.shape(r) == ((nb,) if nb else ()) and bool(np.all(r == truth)), f"is_multiple:axes2:{case['rel']}", (ax, truth))
+    if nb and nb >= 2:
+        # the two tensor axes need not be the trailing ones: batch axis in the middle or at the end, and batch elements with
+        # different answers (every second matrix of B gets one entry changed)
+        Bs, truths = [], []
+        for i in range(nb):
+            bi = [list(r) for r in b]
+            if i % 2:
+                bi[0][0] = bi[0][0] + 1
+            fbi = [x for r in bi for x in r]
+            truths.append((not any(fa)) or (not any(fbi)) or X.rank([fa, fbi]) == 1)
+            Bs.append(np.array([[float(x) for x in r] for r in bi]))
+        B3 = np.stack(Bs)
+        tr = np.array(truths)
+        for pos, ax in ((0, (1, 2)), (1, (0, 2)), (2, (0, 1)), (1, (2, 0)), (2, [1, 0])):
+            r, fl = call("is_multiple", U.is_multiple, np.moveaxis(A, 0, pos), np.moveaxis(B3, 0, pos), axis=ax, rtol=1e-15, atol=1e-8)
+            if fl:
+                ck.add(fl)
+                continue
+            ck.check(np.shape(r) == (nb,) and bool(np.array_equal(np.asarray(r), tr)), f"is_multiple:axes2:batch-axis-{pos}:{case['rel']}", (list(ax), np.asarray(r).tolist(), tr.tolist()))
     return ck.result()
 
 
@@ -408,7 +427,7 @@ def ismult2_strategy(tier):
         n = draw(st.integers(2, 3))
         mat = st.lists(st.lists(C.ints(5), min_size=n, max_size=n), min_size=n, max_size=n)
         return {"a": draw(mat), "b": draw(mat), "rel": draw(st.sampled_from(["multiple", "not"])),
-                "fac": draw(st.sampled_from([[1, 1], [-1, 1], [3, 2], [-5, 4]])), "batch": draw(st.sampled_from([0, 2]))}
+                "fac": draw(st.sampled_from([[1, 1], [-1, 1], [3, 2], [-5, 4]])), "batch": draw(st.sampled_from([0, 2, 3, 4]))}
 
     return s()
 
@@ -539,8 +558,8 @@ LAWS = [
         {"quick": 600, "thorough": 10000}, "roots of polynomials from planted rational/complex roots incl. double/triple", mandatory=("repeated", "deg3")),
     Law("is_multiple", ismult_strategy, run_ismult, lambda c: c["rel"] != "not", lambda c: [c["rel"], c["axis"], "complex" if c["cplx"] else "real"],
         {"quick": 600, "thorough": 10000}, "is_multiple vs exact proportionality, symmetric, zero vector multiple of everything"),
-    Law("is_multiple_axes2", ismult2_strategy, run_ismult2, lambda c: True, lambda c: [c["rel"]], {"quick": 150, "thorough": 2000},
-        "is_multiple with two axes (matrix tensors)"),
+    Law("is_multiple_axes2", ismult2_strategy, run_ismult2, lambda c: True, lambda c: [c["rel"]] + (["non-trailing-axes"] if c["batch"] >= 2 else []), {"quick": 200, "thorough": 3000},
+        "is_multiple with two axes (matrix tensors), also non-trailing axis tuples with a batch axis in the middle or at the end", mandatory=("non-trailing-axes",)),
     Law("hat_matrix", hat_strategy, run_hat, lambda c: True, lambda c: [f"k{c['k']}", c["form"]], {"quick": 200, "thorough": 3000},
         "hat_matrix documented layout, skew symmetry, hat(x) v = v x x"),
     Law("matmul_matvec_outer", mm_strategy, run_mm, lambda c: True, lambda c: ["complex" if c["cplx"] else "real"], {"quick": 150, "thorough": 2000},
